@@ -87,6 +87,16 @@ def cases(tier):
         for na in range(0, 4):
             out.append(("ARITY %d %d" % (np_, na), "fn g(%s)\n{\n}\nfn f(v: i32)\n{\n\tg(%s);\n}\n" % (", ".join("p%d: i32" % j for j in range(np_)), ", ".join(["v"] * na)), "OK" if np_ == na else None))
             out.append(("ARITY-LIT %d %d" % (np_, na), "fn g(%s) -> i32\n{\n\treturn: 1\n}\nfn f() -> i32\n{\n\treturn: g(%s)\n}\n" % (", ".join("p%d: i32" % j for j in range(np_)), ", ".join(["7"] * na)), "OK" if np_ == na else None))
+    # an address where a value is expected (an excess `&`) is a type error in every position
+    for t in ("i32", "u8", "bool"):
+        lit = "true" if t == "bool" else "1"
+        out.append(("XADDR-ARG %s" % t, "fn g(x: %s)\n{\n}\nfn f()\n{\n\tvar a: %s = %s;\n\tg(&a);\n}\n" % (t, t, lit), None))
+        out.append(("XADDR-INI %s" % t, "fn f()\n{\n\tvar b: %s = %s;\n\tvar s: %s = &b;\n}\n" % (t, lit, t), None))
+        out.append(("XADDR-ASG %s" % t, "fn f()\n{\n\tvar b: %s = %s;\n\tvar s: %s = %s;\n\ts = &b;\n}\n" % (t, lit, t, lit), None))
+        out.append(("XADDR-RET %s" % t, "fn f() -> %s\n{\n\tvar b: %s = %s;\n\treturn: &b\n}\n" % (t, t, lit), None))
+        if t != "bool":
+            out.append(("XADDR-OPD %s" % t, "fn f() -> %s\n{\n\tvar r: %s = 1;\n\tvar s: %s = 2;\n\treturn: r + &s\n}\n" % (t, t, t), None))
+        out.append(("XADDR-OK %s" % t, "fn g(x: &%s)\n{\n}\nfn f()\n{\n\tvar a: %s = %s;\n\tg(&a);\n}\n" % (t, t, lit), "OK"))
     # long chains of member accesses through pointers to pointers (each step needs two automatic dereferences:
     # the budget of the typer's autoderef loop was too small from 85 steps on - D61): the type of the whole
     # reference is the type of the last member
